@@ -34,6 +34,20 @@ class BadDict(dict):
 CLASSES = dict(codec.PLAIN, baddict=BadDict)
 
 
+class SlotTuple(tuple):
+    """like a namedtuple: a tuple subclass without an instance __dict__ (__slots__ = ())"""
+    __slots__ = ()
+
+
+class SlotList(list):
+    """a sequence that keeps extra state in __slots__ and has no instance __dict__"""
+    __slots__ = ('extra',)
+
+
+# the same abstract sequences realised by such subclasses: children are still the items
+SLOTTED = dict(CLASSES, tuple=SlotTuple, list=SlotList)
+
+
 def spellings(ops, heap):
     out = []
     kinds = [o['op'] for o in ops]
@@ -99,8 +113,11 @@ def worker(states):
         if len(ops) >= 2:
             out['nontrivial'] += 1
         names = [n for n, _ in spellings(ops, codec.Heap(st['heap'], CLASSES, fns=tspec.FNS))]
-        for name in names:
-            heap = codec.Heap(st['heap'], CLASSES, fns=tspec.FNS)
+        has_seq = any(c['cls'] in ('list', 'tuple') for c in st['heap'])
+        variants = [(n, CLASSES) for n in names] + ([(names[-1] + '/slotted', SLOTTED)] if has_seq and names else [])
+        for name, classes in variants:
+            heap = codec.Heap(st['heap'], classes, fns=tspec.FNS)
+            name = name.split('/')[0]
             spec = dict(spellings(ops, heap))[name]
             obs = observe(heap, st['root'], spec)
             out['n'] += 1
